@@ -131,6 +131,13 @@ struct C16Model : mcx::Model {
         if(steps >= 64) { v.fail("C16/iteration-cycle/" + opk, "iteration did not end within 64 steps"); return; }
         for(auto &kv : visits) if(kv.first < 0 || kv.second != 1 || !I.ref.count(kv.first)) { v.fail("C16/iteration/" + opk, "iteration visited key " + std::to_string(kv.first) + " x" + std::to_string(kv.second)); return; }
         if(visits.size() != I.ref.size()) { v.fail("C16/iteration/" + opk, "iteration visited " + std::to_string(visits.size()) + " banks, reference has " + std::to_string(I.ref.size())); return; }
+        // the same walk with plain (non-creating) lookups of every key between two steps: a lookup changes nothing, so the cursor must still visit every present bank exactly once
+        { std::map<int, int> v2; int st2 = 0; rc = opn2_getFirstBank(I.in.dev, &it);
+          while(rc == 0 && st2 < 64) { OPN2_BankId id; opn2_getBankId(I.in.dev, &it, &id); int kk = -1; for(int k = 0; k < NKEYS; k++) if(KEYS[k].perc == id.percussive && KEYS[k].msb == id.msb && KEYS[k].lsb == id.lsb) kk = k; v2[kk]++; st2++;
+              for(int k = NKEYS - 1; k >= 0; k--) { OPN2_Bank tmp; lookup(I, k, 0, tmp); }
+              rc = opn2_getNextBank(I.in.dev, &it); }
+          if(st2 >= 64) { v.fail("C16/iteration-cycle/" + opk, "iteration with lookups between the steps did not end within 64 steps"); return; }
+          if(v2 != visits) { std::string d; for(auto &kv : v2) d += " key" + std::to_string(kv.first) + "x" + std::to_string(kv.second); v.fail("C16/iteration-with-lookups/" + opk, "iteration with plain lookups between the steps visited" + d + ", " + std::to_string(I.ref.size()) + " banks are present"); return; } }
     }
 
     void apply(void *p, size_t opi, mcx::Verdict &v, uint64_t &tags) override {
